@@ -125,6 +125,9 @@ def gen_cases(tier, seed):
                                     for cont in ("list", "gen"):  # inputs is an Iterable: one-shot iterators too
                                         cases.append(dict(base, fault="bad-input", kind=kind, valid=list(sub), pos=pos,
                                                           order=list(order), chunk=chunk, cont=cont))
+            for which in range(3):  # a leaf frozen (requires_grad_(False)) AFTER the forward pass, inputs left to their default
+                for chunk in (None, 1):
+                    cases.append(dict(base, fault="frozen-default", which=which, valid=None, chunk=chunk))
             for agg in ("const-short", "const-long", "krum", "tm", "raises", "wrong-length"):
                 for sub in ([0], [1, 2], [0, 1, 2], None):
                     for chunk in (None, 1):
@@ -151,6 +154,10 @@ def gen_cases(tier, seed):
                         for pos in range(2):
                             cases.append(dict(base, fault="overlap", task=i, shared_idx=sp, pos=pos))
                 for chunk in (None, 1):
+                    # a parameter frozen AFTER the forward pass, discovered through the defaults
+                    for which in ["s0", "s1"] + [f"p{i}" for i in range(ntasks)]:
+                        for defaults in ("both", "tasks", "shared"):
+                            cases.append(dict(base, fault="frozen-default", which=which, defaults=defaults, chunk=chunk))
                     for pos in range(3):
                         cases.append(dict(base, fault="dup-shared", pos=pos, chunk=chunk))
                     for i in range(ntasks):
@@ -197,6 +204,8 @@ def _run_bw(case):
         kw["inputs"] = (t for t in lst) if case.get("cont") == "gen" else lst
         rank = {id(t): case["order"][j] for j, t in enumerate(lst)}
         would_write = len(valid) > 0
+    elif f == "frozen-default":
+        P["valid"][case["which"]].requires_grad_(False)
     elif f == "agg-reject":
         a = case["agg"]
         if a == "const-short":
@@ -267,6 +276,15 @@ def _run_mtl(case):
                 kw["tasks_params"] = kw["tasks_params"][:-1]
         if len(kw["losses"]) == 0:
             return "skip", None, None, False
+    elif f == "frozen-default":
+        w = case["which"]
+        (P["shared"][int(w[1])] if w[0] == "s" else P["p"][int(w[1])]).requires_grad_(False)
+        if case["defaults"] in ("both", "tasks"):
+            kw["tasks_params"] = None
+        if case["defaults"] in ("both", "shared"):
+            kw["shared_params"] = None
+        if (w[0] == "s" and kw["shared_params"] is not None) or (w[0] == "p" and kw["tasks_params"] is not None):
+            return "skip", None, None, False  # the frozen tensor is listed explicitly: that is the bad-shared / bad-taskparam fault
     elif f == "overlap":
         s = P["shared"][case["shared_idx"]]
         kw["tasks_params"][case["task"]].insert(case["pos"], s)
@@ -297,7 +315,7 @@ def _run_mtl(case):
 
 
 def _sig(case):
-    keys = ["ep", "fault", "kind", "agg", "where", "delta", "cont"]
+    keys = ["ep", "fault", "kind", "agg", "where", "delta", "cont", "defaults"]
     return ":".join(str(case[k]) for k in keys if k in case)
 
 
